@@ -70,6 +70,177 @@ func regexArgs(where string, fd *ast.FuncDecl) []string {
 	return out
 }
 
+// ---- regular expressions used by a function, wherever they are defined ------------------------
+//
+// c09UsedRegexes follows every `<re>.MatchString(arg)` of a function back to the text given to
+// regexp.MustCompile: <re> may be the MustCompile call itself, a local of the function, or a
+// package-level variable of the file; the text may be a literal, a named string constant /
+// variable (local or package-level) or a concatenation of those. Nothing here fails hard: what
+// cannot be resolved is reported in `problems`.
+
+type c09UsedRegex struct {
+	recv string // name of the regexp variable ("" when compiled in place)
+	arg  string // text of the expression that is matched
+	text string // the regular expression
+}
+
+func c09PackageValues(f *ast.File) map[string]ast.Expr {
+	m := map[string]ast.Expr{}
+	for _, d := range f.Decls {
+		gd, ok := d.(*ast.GenDecl)
+		if !ok || (gd.Tok != token.VAR && gd.Tok != token.CONST) {
+			continue
+		}
+		for _, sp := range gd.Specs {
+			vs := sp.(*ast.ValueSpec)
+			for i, n := range vs.Names {
+				if i < len(vs.Values) {
+					m[n.Name] = vs.Values[i]
+				}
+			}
+		}
+	}
+	return m
+}
+
+func c09LocalValues(fd *ast.FuncDecl) map[string]ast.Expr {
+	m := map[string]ast.Expr{}
+	ast.Inspect(fd.Body, func(n ast.Node) bool {
+		switch x := n.(type) {
+		case *ast.AssignStmt:
+			if len(x.Lhs) == len(x.Rhs) {
+				for i, l := range x.Lhs {
+					if id, ok := l.(*ast.Ident); ok {
+						m[id.Name] = x.Rhs[i]
+					}
+				}
+			}
+		case *ast.ValueSpec:
+			for i, n := range x.Names {
+				if i < len(x.Values) {
+					m[n.Name] = x.Values[i]
+				}
+			}
+		}
+		return true
+	})
+	return m
+}
+
+// c09EvalString evaluates a constant string expression (literals, names, +, parentheses).
+func c09EvalString(e ast.Expr, local, pkg map[string]ast.Expr, depth int) (string, error) {
+	if depth > 20 {
+		return "", fmt.Errorf("definitions nest too deeply")
+	}
+	switch x := e.(type) {
+	case *ast.BasicLit:
+		if x.Kind != token.STRING {
+			return "", fmt.Errorf("literal %s is not a string", x.Value)
+		}
+		return strconv.Unquote(x.Value)
+	case *ast.ParenExpr:
+		return c09EvalString(x.X, local, pkg, depth+1)
+	case *ast.BinaryExpr:
+		if x.Op != token.ADD {
+			return "", fmt.Errorf("operator %s in a regular expression text", x.Op)
+		}
+		l, err := c09EvalString(x.X, local, pkg, depth+1)
+		if err != nil {
+			return "", err
+		}
+		r, err := c09EvalString(x.Y, local, pkg, depth+1)
+		return l + r, err
+	case *ast.Ident:
+		if v, ok := local[x.Name]; ok {
+			return c09EvalString(v, local, pkg, depth+1)
+		}
+		if v, ok := pkg[x.Name]; ok {
+			return c09EvalString(v, nil, pkg, depth+1)
+		}
+		return "", fmt.Errorf("%s is not defined in this file", x.Name)
+	}
+	return "", fmt.Errorf("cannot evaluate %s", exprText(e))
+}
+
+func c09IsMustCompile(e ast.Expr) (*ast.CallExpr, bool) {
+	c, ok := e.(*ast.CallExpr)
+	if !ok || len(c.Args) != 1 {
+		return nil, false
+	}
+	n := callName(c)
+	return c, n == "regexp.MustCompile" || n == "regexp.MustCompilePOSIX"
+}
+
+func c09UsedRegexes(f *ast.File, fd *ast.FuncDecl) (used []c09UsedRegex, problems []string) {
+	pkg, local := c09PackageValues(f), c09LocalValues(fd)
+	ast.Inspect(fd.Body, func(n ast.Node) bool {
+		c, ok := n.(*ast.CallExpr)
+		if !ok || len(c.Args) != 1 {
+			return true
+		}
+		sel, ok := c.Fun.(*ast.SelectorExpr)
+		if !ok || (sel.Sel.Name != "MatchString" && sel.Sel.Name != "Match") {
+			return true
+		}
+		u := c09UsedRegex{arg: exprText(c.Args[0])}
+		var def ast.Expr = sel.X
+		inLocal := true
+		if id, ok := sel.X.(*ast.Ident); ok {
+			u.recv = id.Name
+			if v, ok := local[id.Name]; ok {
+				def = v
+			} else if v, ok := pkg[id.Name]; ok {
+				def, inLocal = v, false
+			} else {
+				problems = append(problems, fmt.Sprintf("%s.%s: %s is defined neither in the function nor at package level of the file", fd.Name.Name, sel.Sel.Name, id.Name))
+				return true
+			}
+		}
+		mc, ok := c09IsMustCompile(def)
+		if !ok {
+			problems = append(problems, fmt.Sprintf("%s: %s is not compiled by regexp.MustCompile", fd.Name.Name, exprText(sel.X)))
+			return true
+		}
+		loc := local
+		if !inLocal {
+			loc = nil
+		}
+		text, err := c09EvalString(mc.Args[0], loc, pkg, 0)
+		if err != nil {
+			problems = append(problems, fmt.Sprintf("%s: regular expression of %s: %v", fd.Name.Name, exprText(sel.X), err))
+			return true
+		}
+		u.text = text
+		used = append(used, u)
+		return true
+	})
+	return used, problems
+}
+
+// c09ScopeRegexes tells the domain expression from the repository expression: by the name of
+// the variable or of what is matched, else by order of use (domain first).
+func c09ScopeRegexes(used []c09UsedRegex) (domain, repository string, ok bool) {
+	has := func(u c09UsedRegex, sub string) bool {
+		return strings.Contains(strings.ToLower(u.recv), sub) || strings.Contains(strings.ToLower(u.arg), sub)
+	}
+	di, ri := -1, -1
+	for i, u := range used {
+		switch {
+		case di < 0 && (has(u, "domain") || has(u, "host") || has(u, "registry")):
+			di = i
+		case ri < 0 && has(u, "repo"):
+			ri = i
+		}
+	}
+	if (di < 0 || ri < 0) && len(used) == 2 {
+		di, ri = 0, 1
+	}
+	if di < 0 || ri < 0 || di == ri {
+		return "", "", false
+	}
+	return used[di].text, used[ri].text, true
+}
+
 // comparedLiterals lists the string literals that the expression `lhs` is compared with
 // (== or !=, either operand order) inside a function body, in source order.
 func comparedLiterals(fd *ast.FuncDecl, lhs string, op token.Token) []string {
@@ -112,32 +283,23 @@ func genC09() string {
 	}
 	fmt.Fprintf(&b, "/-- `supportedBlobPolicyVersions` of %s -/\ndef supportedBlobPolicyVersions : List String := %s\n\n", blobFile, leanStrList(stringSliceLit(blobFile, e)))
 
-	vf := mustFunc(of, ociFile, "", "validateRegistryScopeFormat")
-	rx := regexArgs(ociFile, vf)
-	if len(rx) != 2 {
-		fail("%s: validateRegistryScopeFormat compiles %d regular expressions, expected domain and repository", ociFile, len(rx))
-	}
-	// which variable gets which expression
-	names := map[string]string{}
-	ast.Inspect(vf.Body, func(n ast.Node) bool {
-		as, ok := n.(*ast.AssignStmt)
-		if !ok || len(as.Lhs) != 1 || len(as.Rhs) != 1 {
-			return true
+	// the two expressions of validateRegistryScopeFormat, wherever they are defined; a reader
+	// that cannot find them reports it (regexReaderProblems) instead of stopping the extraction
+	var rxProblems []string
+	domainText, repositoryText := "", ""
+	if vf := findFunc(of, "", "validateRegistryScopeFormat"); vf == nil {
+		rxProblems = append(rxProblems, ociFile+": function validateRegistryScopeFormat not found")
+	} else {
+		used, probs := c09UsedRegexes(of, vf)
+		rxProblems = append(rxProblems, probs...)
+		d, r, ok := c09ScopeRegexes(used)
+		if !ok {
+			rxProblems = append(rxProblems, fmt.Sprintf("%s: validateRegistryScopeFormat matches %d regular expressions, cannot tell domain from repository", ociFile, len(used)))
 		}
-		if c, ok := as.Rhs[0].(*ast.CallExpr); ok && callName(c) == "regexp.MustCompile" {
-			names[exprText(as.Lhs[0])] = c09StrLit(ociFile, c.Args[0])
-		}
-		return true
-	})
-	// the locals may be renamed: then the first expression compiled is the domain's, the second the repository's
-	if _, ok := names["domainRegexp"]; !ok {
-		names["domainRegexp"] = rx[0]
+		domainText, repositoryText = d, r
 	}
-	if _, ok := names["repositoryRegexp"]; !ok {
-		names["repositoryRegexp"] = rx[1]
-	}
-	fmt.Fprintf(&b, "/-- `domainRegexp` of validateRegistryScopeFormat (%s) -/\ndef domainRegex : List Char :=\n  %s\n\n", ociFile, c09LeanChars(names["domainRegexp"]))
-	fmt.Fprintf(&b, "/-- `repositoryRegexp` of validateRegistryScopeFormat -/\ndef repositoryRegex : List Char :=\n  %s\n\n", c09LeanChars(names["repositoryRegexp"]))
+	fmt.Fprintf(&b, "/-- the expression `validateRegistryScopeFormat` matches the domain with (%s) -/\ndef domainRegex : List Char :=\n  %s\n\n", ociFile, c09LeanChars(domainText))
+	fmt.Fprintf(&b, "/-- the expression `validateRegistryScopeFormat` matches the repository with -/\ndef repositoryRegex : List Char :=\n  %s\n\n", c09LeanChars(repositoryText))
 
 	// --- internal/trustpolicy/trustpolicy.go: Wildcard, X509Subject
 	const itpFile = "internal/trustpolicy/trustpolicy.go"
@@ -180,11 +342,18 @@ func genC09() string {
 	const fileFile = "internal/file/file.go"
 	ff := parseFile(fileFile)
 	iv := mustFunc(ff, fileFile, "", "IsValidFileName")
-	frx := regexArgs(fileFile, iv)
-	if len(frx) != 1 {
-		fail("%s: IsValidFileName compiles %d regular expressions, expected 1", fileFile, len(frx))
+	fileNameText := ""
+	{
+		used, probs := c09UsedRegexes(ff, iv)
+		rxProblems = append(rxProblems, probs...)
+		if len(used) != 1 {
+			rxProblems = append(rxProblems, fmt.Sprintf("%s: IsValidFileName matches %d regular expressions, expected 1", fileFile, len(used)))
+		} else {
+			fileNameText = used[0].text
+		}
 	}
-	fmt.Fprintf(&b, "/-- the regular expression of `file.IsValidFileName` (%s) -/\ndef fileNameRegex : List Char :=\n  %s\n", fileFile, c09LeanChars(frx[0]))
+	fmt.Fprintf(&b, "/-- the regular expression of `file.IsValidFileName` (%s) -/\ndef fileNameRegex : List Char :=\n  %s\n", fileFile, c09LeanChars(fileNameText))
+	fmt.Fprintf(&b, "/-- what the readers of the three expressions could not resolve (must be empty) -/\ndef regexReaderProblems : List String := %s\n", leanStrList(rxProblems))
 	var refused []string
 	lits := comparedLiterals(iv, "fileName", token.EQL)
 	sort.Strings(lits) // a set: the order of the comparisons does not matter
